@@ -57,7 +57,7 @@ pub fn simultaneous_agreement<T: PartialEq + Send, F: Fn() -> T + Sync>(jobs: &[
                     s.spawn(move || {
                         ready.fetch_add(1, std::sync::atomic::Ordering::SeqCst);
                         while ready.load(std::sync::atomic::Ordering::SeqCst) < n {
-                            std::hint::spin_loop();
+                            crate::iohelp::spin_or_yield();
                         }
                         j()
                     })
@@ -72,4 +72,21 @@ pub fn simultaneous_agreement<T: PartialEq + Send, F: Fn() -> T + Sync>(jobs: &[
         }
     }
     None
+}
+
+
+/// One step of a start barrier: spin a little, then give the core away (so that a barrier also completes quickly on a
+/// machine with fewer free cores than threads).
+pub fn spin_or_yield() {
+    thread_local! { static N: std::cell::Cell<u32> = const { std::cell::Cell::new(0) }; }
+    let n = N.with(|c| {
+        let v = c.get().wrapping_add(1);
+        c.set(v);
+        v
+    });
+    if n % 256 == 0 {
+        std::thread::yield_now();
+    } else {
+        std::hint::spin_loop();
+    }
 }
